@@ -65,7 +65,16 @@ class _SocketHub:
         self._open_sockets.add(socket.key)
         self._remote_sockets.add(socket.key)
 
-        self._wait_for_remote(socket, timeout=timeout)
+        try:
+            self._wait_for_remote(socket, timeout=timeout)
+        except TimeoutError:
+            # This socket never got connected and there will be no disconnect for it:
+            # do not leave it behind for a remote socket that is opened later to find.
+            self._open_sockets.discard(socket.key)
+            self._remote_sockets.discard(socket.key)
+            self._recv_callbacks.pop(socket.key, None)
+            self._conn_lost_callbacks.pop(socket.key, None)
+            raise
 
     def _add_callbacks(self, socket: thread_socket.ThreadSocket) -> None:
         if socket.use_callbacks:
